@@ -236,10 +236,15 @@ fn lex_source_into_buffer<'source: 'tokens, 'tokens: 'buffer, 'buffer>(
 			{
 				continue;
 			}
-			b'\r' =>
+			b'\r' => match iter.peek()
 			{
-				continue;
-			}
+				// Only as part of the line ending "\r\n".
+				Some((_, b'\n')) =>
+				{
+					continue;
+				}
+				_ => Err(LexingError::UnexpectedCharacter),
+			},
 			b'\n' =>
 			{
 				line_number += 1;
